@@ -81,7 +81,9 @@ def proc_syscall(pid):
 
 
 class Scheduler:
-    def __init__(self, workdir, sockpath, lockfile, visible, chooser, max_steps=4000, step_timeout=20.0):
+    def __init__(self, workdir, sockpath, lockfile, visible, chooser, max_steps=4000, step_timeout=20.0, poll_at=None):
+        self.poll_at = poll_at          # script-gate label prefix after which a pending log poll runs first by default
+        self.polled_for = None
         self.workdir = workdir
         self.sockpath = sockpath
         self.lockfile = lockfile
@@ -107,6 +109,7 @@ class Scheduler:
         self.auto_released = 0
         self.state_hashes = set()
         self.last_run = {}
+        self.step_no_of_park = {}
 
     # -- process bookkeeping ---------------------------------------------------
     def lid_for_new(self, pid, ppid):
@@ -153,6 +156,7 @@ class Scheduler:
                 self.procs[pid] = g
             g.conn = conn_state["conn"]
             g.gate = ("script", detail)
+            self.step_no_of_park[g.lid] = self.step_no
             conn_state["pid"] = pid
             return
         p = self.procs.get(pid)
@@ -439,10 +443,18 @@ class Scheduler:
                     break
             # default: continue the running thread if it has a non-timer choice, else first non-timer, else first
             default = None
-            for i, c in enumerate(choices):
-                if c[3] not in YIELD_LABELS and c[3] != "1" and same_thread(c[0], self.last_lid):
-                    default = i
-                    break
+            if self.poll_at:
+                # a script has just parked after a partial write: let the log follower read that fragment first
+                cur = [c for c in choices if c[2] == "script" and c[4].startswith(self.poll_at) and same_thread(c[0], self.last_lid)]
+                polls = [i for i, c in enumerate(choices) if c[3] == "poll"]
+                if cur and polls and self.polled_for != (cur[0][0], self.step_no_of_park.get(cur[0][0])):
+                    default = polls[0]
+                    self.polled_for = (cur[0][0], self.step_no_of_park.get(cur[0][0]))
+            if default is None:
+                for i, c in enumerate(choices):
+                    if c[3] not in YIELD_LABELS and c[3] != "1" and same_thread(c[0], self.last_lid):
+                        default = i
+                        break
             if default is None:
                 for i, c in enumerate(choices):
                     if c[3] not in YIELD_LABELS and c[3] != "1":
